@@ -177,7 +177,8 @@ fn translate_free_helpers(files: &[File], reg: &mut Registry, out: &mut String, 
         if let Some(g) = found {
             translate_free_helpers(files, reg, out, &g.block, &name, depth + 1)?;
             let mut tr = FnTr { reg, self_ty: None, ret: Ty::Unit, counter: 0, fn_prefix: name.clone(), local_fns: HashMap::new(), extra_defs: vec![] };
-            let (text, fsig) = tr.function(&g.sig, &g.block, &name).map_err(|e| format!("helper fn {}: {}", name, e))?;
+            let gblock = crate::statics::inline_consts_block(files, tr.reg, &g.block);
+            let (text, fsig) = tr.function(&g.sig, &gblock, &name).map_err(|e| format!("helper fn {}: {}", name, e))?;
             for d in tr.extra_defs {
                 out.push_str(&d);
                 out.push('\n');
@@ -397,6 +398,9 @@ fn translate_unit(repo: &Path, u: &Unit, reg: &mut Registry) -> Res<String> {
                 // private module-level helpers the function calls (a nested helper moved out of the
                 // function, an extracted sub-step) are translated first, without being listed
                 translate_free_helpers(&files, reg, &mut out, body, fname, 0)?;
+                // module-level constants the body mentions but the unit does not select: by value
+                let body_inl = crate::statics::inline_consts_block(&files, reg, body);
+                let body = &body_inl;
                 let mut tr = FnTr { reg, self_ty: tyname.map(|s| s.to_string()), ret: Ty::Unit, counter: 0, fn_prefix: lean_name.clone(), local_fns: HashMap::new(), extra_defs: vec![] };
                 let (text, fsig) = tr.function(sig, body, &lean_name).map_err(|e| format!("fn {}: {}", lean_name, e))?;
                 for d in tr.extra_defs {
